@@ -330,9 +330,11 @@ pub fn table_short(dir: &str, tier: &str, seed: u64, per: usize) -> (usize, u64)
                     w.push(&short_row(s, d1, d2));
                 }
             }
-            if s == 0xF1 {
-                for d1 in 0..128u8 {
-                    w.push(&short_row(s, d1, 5));
+            // every value of one data byte against a few values of the other
+            for d1 in 0..128u8 {
+                for &d2 in &[0u8, 1, 5, 64, 127] {
+                    w.push(&short_row(s, d1, d2));
+                    w.push(&short_row(s, d2, d1));
                 }
             }
         }
